@@ -4,6 +4,7 @@
 import ElfVerif.Lemmas.StreamLegal
 import ElfVerif.Lemmas.Shift
 import ElfVerif.Props.C05
+import ElfVerif.Props.C01
 namespace Elf
 open Elf.C05
 
@@ -28,7 +29,7 @@ def headersOf {α} : Option (Table α) → Out (List α)
 
 /-- reading `shdr[0]` through the stream = parsing it in place -/
 theorem shdr0_equiv (h : FileHeader) (r : CachingReader) (c : Array UInt8) (hinv : RInv r c)
-    (hc63 : c.size < 2 ^ 63) (off : Nat) (hoff : off < 2 ^ 64) :
+    (hc63 : c.size < 2 ^ 63) (off : Nat) :
     let size := Gen.size_SectionHeader h.cls
     (off + size ≤ c.size →
       ∃ b r', r.readBytes off (off + size) = (.ok b, r') ∧ RInv r' c ∧
@@ -116,146 +117,406 @@ end Elf
 
 namespace Elf
 
+/-- in-place reading of a field of `shdr[0]` by the slice parser -/
+def shdr0InPlace (h : FileHeader) (d : Slice) (proj : SectionHeader → Nat) : Out Nat :=
+  match (SectionHeader.ep.parse h.little h.cls d h.t.e_shoff).1 with
+  | .ok s0 => .ok (proj s0)
+  | .err e => .err e
+  | .panic => .panic
+
+theorem streamShdr0_equiv (h : FileHeader) (r : CachingReader) (c : Array UInt8) (hinv : RInv r c)
+    (hc63 : c.size < 2 ^ 63) (proj : SectionHeader → Nat) :
+    ∃ r', RInv r' c ∧
+      ((∃ n, streamShdr0 h (Gen.size_SectionHeader h.cls) proj r = (.ok n, r') ∧
+             shdr0InPlace h (Slice.ofArray c) proj = .ok n) ∨
+       (∃ e e', streamShdr0 h (Gen.size_SectionHeader h.cls) proj r = (.err e, r') ∧
+             shdr0InPlace h (Slice.ofArray c) proj = .err e')) := by
+  have husz := USZ_eq
+  have hsz64 : Gen.size_SectionHeader h.cls ≤ 64 := by cases h.cls <;> decide
+  obtain ⟨hfit, hnofit⟩ := shdr0_equiv h r c hinv hc63 h.t.e_shoff
+  unfold streamShdr0 shdr0InPlace rbind rlift checkedAdd
+  by_cases hov : h.t.e_shoff + Gen.size_SectionHeader h.cls < USZ
+  · simp only [hov, if_true, Out.ofOption]
+    by_cases hle : h.t.e_shoff + Gen.size_SectionHeader h.cls ≤ c.size
+    · obtain ⟨b, r1, e1, e2, e3⟩ := hfit hle
+      rw [e1]; simp only; rw [e3]
+      refine ⟨r1, e2, ?_⟩
+      cases hp : (SectionHeader.ep.parse h.little h.cls (Slice.ofArray c) h.t.e_shoff).1 with
+      | ok s0 => exact Or.inl ⟨_, rfl, rfl⟩
+      | err e => exact Or.inr ⟨e, e, rfl, rfl⟩
+      | panic => exact absurd hp (EntryParser.parse_no_panic SectionHeader.ep total_SectionHeader _ _ _ _)
+    · obtain ⟨⟨r1, e1, e2⟩, e', he'⟩ := hnofit (by omega)
+      rw [e1]; simp only
+      exact ⟨r1, e2, Or.inr ⟨_, e', rfl, by rw [he']⟩⟩
+  · simp only [hov, if_false, Out.ofOption]
+    obtain ⟨_, e', he'⟩ := hnofit (by omega)
+    exact ⟨r, hinv, Or.inr ⟨_, e', rfl, by rw [he']⟩⟩
+
+theorem streamTable_equiv {α} (ep : EntryParser α) (le : Bool) (cls : Class) (r : CachingReader)
+    (c : Array UInt8) (hinv : RInv r c) (off size n : Nat) :
+    ∃ r', RInv r' c ∧
+      ((∃ w, C05.tableWindow (Slice.ofArray c) off size n = .ok w ∧
+          streamTable (fun b => (⟨ep, le, cls, b⟩ : Table α)) off size n r =
+            ((⟨ep, le, cls, w⟩ : Table α).iter.collect.1, r')) ∨
+       (∃ e e', C05.tableWindow (Slice.ofArray c) off size n = .err e' ∧
+          streamTable (fun b => (⟨ep, le, cls, b⟩ : Table α)) off size n r = (.err e, r'))) := by
+  obtain ⟨hA, hB⟩ := table_read_equiv ep le cls r c hinv off size n
+  unfold streamTable rbind rlift checkedMul checkedAdd collectAll
+  by_cases hm : size * n < USZ
+  · by_cases ha : off + size * n < USZ
+    · simp only [hm, ha, if_true, Out.ofOption]
+      cases hw : C05.tableWindow (Slice.ofArray c) off size n with
+      | ok w =>
+        obtain ⟨b, r1, e1, e2, e3⟩ := hA w hw
+        rw [e1]; simp only
+        exact ⟨r1, e2, Or.inl ⟨w, rfl, by rw [e3]⟩⟩
+      | err e' =>
+        generalize hrb : r.readBytes off (off + size * n) = q
+        obtain ⟨q1, q2⟩ := q
+        cases q1 with
+        | ok b =>
+          obtain ⟨w, e1, _, _⟩ := hB hm ha b q2 hrb
+          rw [hw] at e1; cases e1
+        | err e =>
+          simp only
+          -- the reader state after a failed read still satisfies the invariant
+          obtain ⟨_, hno⟩ := readBytes_legal r c off (off + size * n) hinv (by omega)
+          by_cases hle : off + size * n ≤ c.size
+          · obtain ⟨b2, r2, e1, _, _⟩ := (readBytes_legal r c off (off + size * n) hinv (by omega)).1 hle
+            rw [hrb] at e1; injection e1 with e1 _; cases e1
+          · obtain ⟨r2, e1, e2⟩ := hno (by omega)
+            rw [hrb] at e1; injection e1 with _ e1b; subst e1b
+            exact ⟨q2, e2, Or.inr ⟨e, e', rfl, rfl⟩⟩
+        | panic => exact absurd (by rw [hrb]) (readBytes_ne_panic r off (off + size * n))
+      | panic =>
+        unfold C05.tableWindow at hw
+        split at hw
+        · split at hw <;> cases hw
+        · cases hw
+    · simp only [hm, ha, if_true, if_false, Out.ofOption]
+      refine ⟨r, hinv, Or.inr ⟨_, .IntegerOverflow, ?_, rfl⟩⟩
+      unfold C05.tableWindow; simp [ha]
+  · simp only [hm, if_false, Out.ofOption]
+    refine ⟨r, hinv, Or.inr ⟨_, .IntegerOverflow, ?_, rfl⟩⟩
+    unfold C05.tableWindow; simp [hm]
+
 /-- **Section header table: stream locator ≡ slice locator** under any legal reader: one succeeds
     iff the other does, and the stream's `Vec` holds exactly the headers of the slice parser's
     table (validation order differs between the two; the success sets do not). -/
 theorem section_headers_equiv (h : FileHeader) (r : CachingReader) (c : Array UInt8) (hinv : RInv r c)
-    (hc63 : c.size < 2 ^ 63) (hoff : h.t.e_shoff < 2 ^ 64) :
-    (∀ tbl, findShdrs h (Slice.ofArray c) = .ok tbl →
-      ∃ l r', parseSectionHeaders h r = (.ok l, r') ∧ RInv r' c ∧ headersOf tbl = .ok l) ∧
-    (∀ l r', parseSectionHeaders h r = (.ok l, r') →
-      ∃ tbl, findShdrs h (Slice.ofArray c) = .ok tbl ∧ RInv r' c ∧ headersOf tbl = .ok l) := by
-  have husz := USZ_eq
-  have hsz : SectionHeader.ep.size h.cls = Gen.size_SectionHeader h.cls := rfl
-  have hsz64 : Gen.size_SectionHeader h.cls ≤ 64 := by cases h.cls <;> decide
+    (hc63 : c.size < 2 ^ 63) :
+    ∃ r', RInv r' c ∧
+      ((∃ tbl, findShdrs h (Slice.ofArray c) = .ok tbl ∧ parseSectionHeaders h r = (headersOf tbl, r')) ∨
+       (∃ e e', findShdrs h (Slice.ofArray c) = .err e' ∧ parseSectionHeaders h r = (.err e, r'))) := by
   rw [C05.find_shdrs_spec]
   unfold parseSectionHeaders
   by_cases h0 : h.t.e_shoff = 0
   · simp only [h0, if_true]
-    constructor
-    · intro tbl ht; injection ht with ht; subst ht
-      exact ⟨[], r, rfl, hinv, rfl⟩
-    · intro l r' hl; injection hl with hl1 hl2; injection hl1 with hl1; subst hl1 hl2
-      exact ⟨none, rfl, hinv, rfl⟩
+    exact ⟨r, hinv, Or.inl ⟨none, rfl, rfl⟩⟩
   · simp only [h0, if_false]
-    unfold EntryParser.validateEntsize rlift rbind
+    unfold EntryParser.validateEntsize
+    have hsz : SectionHeader.ep.size h.cls = Gen.size_SectionHeader h.cls := rfl
     rw [hsz]
     by_cases he : h.t.e_shentsize = Gen.size_SectionHeader h.cls
-    · simp only [he, if_true, ne_eq, not_true_eq_false, if_false]
-      -- resolve the section count on both sides
-      have hshnum : ∀ (k : Nat → CachingReader → Out (List SectionHeader) × CachingReader)
-          (P : Out (List SectionHeader) × CachingReader → Prop),
-          (∀ n r1, RInv r1 c → C05.shnumSpec h (Slice.ofArray c) = .ok n → P (k n r1)) →
-          (∀ e r1, RInv r1 c → (∃ e', C05.shnumSpec h (Slice.ofArray c) = .err e') → P (.err e, r1)) →
-          P (match (if h.t.e_shnum = 0 then
-              match (match Out.ofOption Err.IntegerOverflow (checkedAdd h.t.e_shoff (Gen.size_SectionHeader h.cls)) with
-                | .ok a => (match r.readBytes h.t.e_shoff a with
-                    | (.ok data, r) => (match (SectionHeader.ep.parse h.little h.cls data 0).1 with
-                        | .ok shdr0 => (Out.ok shdr0.sh_size, r)
-                        | .err e => (.err e, r)
-                        | .panic => (.panic, r))
-                    | (.err e, r) => (.err e, r)
-                    | (.panic, r) => (.panic, r))
-                | .err e => (.err e, r)
-                | .panic => (.panic, r)) with
-              | x => x
-            else (Out.ok h.t.e_shnum, r)) with
-            | (.ok a, r) => k a r
-            | (.err e, r) => (.err e, r)
-            | (.panic, r) => (.panic, r)) := by
-        intro k P hok herr
+    · simp only [he, if_true, ne_eq, not_true_eq_false, if_false, rbind, rlift]
+      -- the section count, on both sides
+      have hcount : ∃ r1, RInv r1 c ∧
+          ((∃ n, (if h.t.e_shnum = 0 then streamShdr0 h (Gen.size_SectionHeader h.cls) SectionHeader.sh_size r
+                  else (Out.ok h.t.e_shnum, r)) = (.ok n, r1) ∧ C05.shnumSpec h (Slice.ofArray c) = .ok n) ∨
+           (∃ e e', (if h.t.e_shnum = 0 then streamShdr0 h (Gen.size_SectionHeader h.cls) SectionHeader.sh_size r
+                  else (Out.ok h.t.e_shnum, r)) = (.err e, r1) ∧ C05.shnumSpec h (Slice.ofArray c) = .err e')) := by
         by_cases hz : h.t.e_shnum = 0
         · simp only [hz, if_true]
-          obtain ⟨hfit, hnofit⟩ := shdr0_equiv h r c hinv hc63 h.t.e_shoff hoff
-          unfold checkedAdd
-          by_cases hov : h.t.e_shoff + Gen.size_SectionHeader h.cls < USZ
-          · simp only [hov, if_true, Out.ofOption]
-            by_cases hle : h.t.e_shoff + Gen.size_SectionHeader h.cls ≤ c.size
-            · obtain ⟨b, r1, e1, e2, e3⟩ := hfit hle
-              rw [e1]; simp only
-              rw [e3]
-              have hspec : C05.shnumSpec h (Slice.ofArray c) =
-                  (match (SectionHeader.ep.parse h.little h.cls (Slice.ofArray c) h.t.e_shoff).1 with
-                   | .ok shdr0 => .ok shdr0.sh_size | .err e => .err e | .panic => .panic) := by
-                unfold C05.shnumSpec; simp [hz]
-              cases hp : (SectionHeader.ep.parse h.little h.cls (Slice.ofArray c) h.t.e_shoff).1 with
-              | ok s0 => simp only; exact hok _ _ e2 (by rw [hspec, hp])
-              | err e => simp only; exact herr _ _ e2 ⟨e, by rw [hspec, hp]⟩
-              | panic =>
-                exact absurd hp (EntryParser.parse_no_panic SectionHeader.ep total_SectionHeader _ _ _ _)
-            · obtain ⟨⟨r1, e1, e2⟩, e', he'⟩ := hnofit (by omega)
-              rw [e1]; simp only
-              exact herr _ _ e2 ⟨e', by unfold C05.shnumSpec; simp [hz, he']⟩
-          · simp only [hov, if_false, Out.ofOption]
-            obtain ⟨_, e', he'⟩ := (shdr0_equiv h r c hinv hc63 h.t.e_shoff hoff).2 (by omega)
-            exact herr _ _ hinv ⟨e', by unfold C05.shnumSpec; simp [hz, he']⟩
+          have hspec : C05.shnumSpec h (Slice.ofArray c) = shdr0InPlace h (Slice.ofArray c) SectionHeader.sh_size := by
+            unfold C05.shnumSpec shdr0InPlace; simp only [hz, if_true]
+            cases (SectionHeader.ep.parse h.little h.cls (Slice.ofArray c) h.t.e_shoff).1 <;> rfl
+          rw [hspec]
+          exact streamShdr0_equiv h r c hinv hc63 _
         · simp only [hz, if_false]
-          exact hok _ _ hinv (by unfold C05.shnumSpec; simp [hz])
-      constructor
-      · -- slice ok ⇒ stream ok
-        intro tbl ht
-        apply hshnum _ (fun x => ∃ l r', x = (.ok l, r') ∧ RInv r' c ∧ headersOf tbl = .ok l)
-        · intro n r1 hr1 hn
-          rw [hn] at ht
-          simp only [Out.bind] at ht
-          cases hw : C05.tableWindow (Slice.ofArray c) h.t.e_shoff (Gen.size_SectionHeader h.cls) n with
-          | panic => simp [hw] at ht
-          | err e => simp [hw] at ht
-          | ok w =>
-            simp only [hw] at ht
-            injection ht with ht; subst ht
-            obtain ⟨b, r2, e1, e2, e3⟩ := (table_read_equiv SectionHeader.ep h.little h.cls r1 c hr1
-              h.t.e_shoff (Gen.size_SectionHeader h.cls) n).1 w hw
-            -- the window exists, so the checked arithmetic succeeds
-            have harith : Gen.size_SectionHeader h.cls * n < USZ ∧
-                h.t.e_shoff + Gen.size_SectionHeader h.cls * n < USZ := by
-              unfold C05.tableWindow at hw
-              split at hw
-              · rename_i hh; exact hh
-              · cases hw
-            unfold checkedMul checkedAdd
-            simp only [harith.1, harith.2, if_true, Out.ofOption, e1]
-            exact ⟨_, r2, rfl, e2, by simp only [headersOf, collectAll, shdrTable]; rw [← e3]⟩
-        · intro e r1 _ hne
-          obtain ⟨e', he'⟩ := hne
-          rw [he'] at ht; simp [Out.bind] at ht
-      · -- stream ok ⇒ slice ok
-        intro l r'
-        apply hshnum _ (fun x => x = (.ok l, r') →
-          ∃ tbl, ((C05.shnumSpec h (Slice.ofArray c)).bind fun shnum =>
-              (C05.tableWindow (Slice.ofArray c) h.t.e_shoff (Gen.size_SectionHeader h.cls) shnum).bind fun w =>
-                Out.ok (some (shdrTable h w))) = .ok tbl ∧ RInv r' c ∧ headersOf tbl = .ok l)
-        · intro n r1 hr1 hn hx
-          rw [hn]; simp only [Out.bind]
-          unfold checkedMul checkedAdd at hx
-          by_cases hm : Gen.size_SectionHeader h.cls * n < USZ
-          · by_cases ha : h.t.e_shoff + Gen.size_SectionHeader h.cls * n < USZ
-            · simp only [hm, ha, if_true, Out.ofOption] at hx
-              generalize hrb : r1.readBytes h.t.e_shoff (h.t.e_shoff + Gen.size_SectionHeader h.cls * n) = q at hx
-              obtain ⟨q1, q2⟩ := q
-              cases q1 with
-              | panic => simp at hx
-              | err e => simp at hx
-              | ok b =>
-                simp only at hx
-                obtain ⟨w, e1, e2, e3⟩ := (table_read_equiv SectionHeader.ep h.little h.cls r1 c hr1
-                  h.t.e_shoff (Gen.size_SectionHeader h.cls) n).2 hm ha b q2 hrb
-                injection hx with hx1 hx2
-                subst hx2
-                refine ⟨some (shdrTable h w), by rw [e1], e2, ?_⟩
-                simp only [headersOf, shdrTable]
-                rw [← e3]; exact hx1
-            · simp [hm, ha, Out.ofOption] at hx
-          · simp [hm, Out.ofOption] at hx
-        · intro e r1 _ _ hx
-          injection hx with hx _; cases hx
-    · -- wrong e_shentsize: both fail
-      have he' : ¬ h.t.e_shentsize = Gen.size_SectionHeader h.cls := he
-      simp only [he', if_false, ne_eq, not_false_eq_true, if_true]
-      constructor
-      · intro tbl ht
-        cases hs : C05.shnumSpec h (Slice.ofArray c) <;> simp [hs, Out.bind] at ht
-      · intro l r' hx
-        injection hx with hx _; cases hx
+          exact ⟨r, hinv, Or.inl ⟨_, rfl, by unfold C05.shnumSpec; simp [hz]⟩⟩
+      obtain ⟨r1, hr1, hcases⟩ := hcount
+      rcases hcases with ⟨n, e1, e2⟩ | ⟨e, e', e1, e2⟩
+      · rw [e1, e2]
+        simp only [Out.bind]
+        obtain ⟨r2, hr2, hcases2⟩ := streamTable_equiv SectionHeader.ep h.little h.cls r1 c hr1
+          h.t.e_shoff (Gen.size_SectionHeader h.cls) n
+        refine ⟨r2, hr2, ?_⟩
+        rcases hcases2 with ⟨w, f1, f2⟩ | ⟨e, e', f1, f2⟩
+        · exact Or.inl ⟨some (shdrTable h w), by rw [f1], by rw [show shdrTable h = fun b => (⟨SectionHeader.ep, h.little, h.cls, b⟩ : Table SectionHeader) from rfl, f2]; rfl⟩
+        · exact Or.inr ⟨e, e', by rw [f1], by rw [show shdrTable h = fun b => (⟨SectionHeader.ep, h.little, h.cls, b⟩ : Table SectionHeader) from rfl, f2]⟩
+      · rw [e1, e2]
+        exact ⟨r1, hr1, Or.inr ⟨e, e', rfl, rfl⟩⟩
+    · simp only [he, if_false, ne_eq, not_false_eq_true, if_true, rbind, rlift]
+      refine ⟨r, hinv, Or.inr ⟨_, ?_, ?_, rfl⟩⟩
+      · exact (match C05.shnumSpec h (Slice.ofArray c) with
+          | .ok _ => .BadEntsize h.t.e_shentsize (Gen.size_SectionHeader h.cls)
+          | .err e => e
+          | .panic => .IOError)
+      · cases hs : C05.shnumSpec h (Slice.ofArray c) with
+        | ok n => simp [Out.bind]
+        | err e => simp [Out.bind]
+        | panic =>
+          exfalso
+          unfold C05.shnumSpec at hs
+          split at hs
+          · cases hs
+          · have := EntryParser.parse_no_panic SectionHeader.ep total_SectionHeader h.little h.cls (Slice.ofArray c) h.t.e_shoff
+            split at hs <;> simp_all
+
+/-- **Program header table: stream locator ≡ slice locator** under any legal reader. -/
+theorem program_headers_equiv (h : FileHeader) (r : CachingReader) (c : Array UInt8) (hinv : RInv r c)
+    (hc63 : c.size < 2 ^ 63) :
+    ∃ r', RInv r' c ∧
+      ((∃ tbl, findPhdrs h (Slice.ofArray c) = .ok tbl ∧ parseProgramHeaders h r = (headersOf tbl, r')) ∨
+       (∃ e e', findPhdrs h (Slice.ofArray c) = .err e' ∧ parseProgramHeaders h r = (.err e, r'))) := by
+  rw [C05.find_phdrs_spec]
+  unfold parseProgramHeaders
+  by_cases h0 : h.t.e_phoff = 0
+  · simp only [h0, if_true]
+    exact ⟨r, hinv, Or.inl ⟨none, rfl, rfl⟩⟩
+  · simp only [h0, if_false]
+    have hsz : SectionHeader.ep.size h.cls = Gen.size_SectionHeader h.cls := rfl
+    rw [hsz]
+    have hcount : ∃ r1, RInv r1 c ∧
+        ((∃ n, (if h.t.e_phnum = Abi.PN_XNUM then streamShdr0 h (Gen.size_SectionHeader h.cls) SectionHeader.sh_info r
+                else (Out.ok h.t.e_phnum, r)) = (.ok n, r1) ∧ C05.phnumSpec h (Slice.ofArray c) = .ok n) ∨
+         (∃ e e', (if h.t.e_phnum = Abi.PN_XNUM then streamShdr0 h (Gen.size_SectionHeader h.cls) SectionHeader.sh_info r
+                else (Out.ok h.t.e_phnum, r)) = (.err e, r1) ∧ C05.phnumSpec h (Slice.ofArray c) = .err e')) := by
+      by_cases hz : h.t.e_phnum = Abi.PN_XNUM
+      · simp only [hz, if_true]
+        have hspec : C05.phnumSpec h (Slice.ofArray c) = shdr0InPlace h (Slice.ofArray c) SectionHeader.sh_info := by
+          unfold C05.phnumSpec shdr0InPlace
+          have : h.t.e_phnum = 0xffff := hz
+          simp only [this, ne_eq, not_true_eq_false, if_false]
+          cases (SectionHeader.ep.parse h.little h.cls (Slice.ofArray c) h.t.e_shoff).1 <;> rfl
+        rw [hspec]
+        exact streamShdr0_equiv h r c hinv hc63 _
+      · simp only [hz, if_false]
+        have : ¬ h.t.e_phnum = 0xffff := hz
+        exact ⟨r, hinv, Or.inl ⟨_, rfl, by unfold C05.phnumSpec; simp [this]⟩⟩
+    obtain ⟨r1, hr1, hcases⟩ := hcount
+    unfold rbind
+    rcases hcases with ⟨n, e1, e2⟩ | ⟨e, e', e1, e2⟩
+    · rw [e1, e2]
+      simp only [Out.bind]
+      unfold EntryParser.validateEntsize
+      have hpsz : ProgramHeader.ep.size h.cls = Gen.size_ProgramHeader h.cls := rfl
+      rw [hpsz]
+      by_cases he : h.t.e_phentsize = Gen.size_ProgramHeader h.cls
+      · simp only [he, if_true, ne_eq, not_true_eq_false, if_false, rlift]
+        obtain ⟨r2, hr2, hcases2⟩ := streamTable_equiv ProgramHeader.ep h.little h.cls r1 c hr1
+          h.t.e_phoff (Gen.size_ProgramHeader h.cls) n
+        refine ⟨r2, hr2, ?_⟩
+        rcases hcases2 with ⟨w, f1, f2⟩ | ⟨e, e', f1, f2⟩
+        · exact Or.inl ⟨some (phdrTable h w), by rw [f1], by rw [show phdrTable h = fun b => (⟨ProgramHeader.ep, h.little, h.cls, b⟩ : Table ProgramHeader) from rfl, f2]; rfl⟩
+        · exact Or.inr ⟨e, e', by rw [f1], by rw [show phdrTable h = fun b => (⟨ProgramHeader.ep, h.little, h.cls, b⟩ : Table ProgramHeader) from rfl, f2]⟩
+      · simp only [he, if_false, ne_eq, not_false_eq_true, if_true, rlift]
+        exact ⟨r1, hr1, Or.inr ⟨_, _, rfl, rfl⟩⟩
+    · rw [e1, e2]
+      exact ⟨r1, hr1, Or.inr ⟨e, e', rfl, rfl⟩⟩
+
+/-! ### `open_stream` ≡ `minimal_parse` -/
+
+theorem Iter.next_ne_err {α} (it : Iter α) (e : Err) : it.next.1 ≠ .err e := by
+  unfold Iter.next
+  split
+  · simp
+  · generalize it.ep.parse it.little it.cls it.data it.offset = r
+    obtain ⟨r1, r2⟩ := r
+    cases r1 <;> simp
+
+theorem Iter.collectFuel_ok {α} (n : Nat) (it : Iter α) (acc : List α) (ht : it.ep.Total) :
+    ∃ l, (it.collectFuel n acc).1 = .ok l := by
+  induction n generalizing it acc with
+  | zero => exact ⟨acc, rfl⟩
+  | succ n ih =>
+    unfold Iter.collectFuel
+    have hp := Iter.next_ne_panic it ht
+    have he := Iter.next_ne_err it
+    have hep := (Iter.next_ep it).1
+    generalize it.next = r at hp he hep
+    obtain ⟨r1, r2⟩ := r
+    cases r1 with
+    | ok o =>
+      cases o with
+      | none => exact ⟨acc, rfl⟩
+      | some a => exact ih r2 _ (by simp only at hep; rw [hep]; exact ht)
+    | err e => exact absurd rfl (he e)
+    | panic => exact absurd rfl hp
+
+/-- draining a table of a total parser always yields a list -/
+theorem headersOf_ok {α} (t : Option (Table α)) (ht : ∀ x, t = some x → x.ep.Total) :
+    ∃ l, headersOf t = .ok l := by
+  cases t with
+  | none => exact ⟨[], rfl⟩
+  | some x =>
+    show ∃ l, x.iter.collect.1 = .ok l
+    rw [Iter.collect_eq]
+    exact Iter.collectFuel_ok _ _ _ (ht x rfl)
+
+theorem indexByte_congr {a b : Slice} (h : SameBytes a b) (i : Nat) : indexByte a i = indexByte b i := by
+  unfold indexByte
+  rw [← h.1]
+  by_cases hi : i < a.len
+  · simp only [hi, if_true]; rw [h.2 i hi]
+  · simp only [hi, if_false]
+
+theorem verifyIdent_congr {a b : Slice} (h : SameBytes a b) : verifyIdent a = verifyIdent b := by
+  unfold verifyIdent
+  rw [← h.1, indexByte_congr h]
+  by_cases hl : a.len < Abi.EI_CLASS
+  · simp only [hl, if_true]
+  · simp only [hl, if_false]
+    have hl' : 4 ≤ a.len := by simp only [Abi.EI_CLASS] at hl; omega
+    rw [h.2 0 (by omega), h.2 1 (by omega), h.2 2 (by omega), h.2 3 (by omega)]
+
+theorem parseIdent_congr {a b : Slice} (h : SameBytes a b) (sp : Spec) : parseIdent sp a = parseIdent sp b := by
+  unfold parseIdent
+  rw [← h.1, verifyIdent_congr h]
+  simp only [indexByte_congr h]
+
+theorem parseTail_congr {a b : Slice} (h : SameBytes a b) (id : Bool × Class × Nat × Nat) :
+    parseTail id a = parseTail id b := by
+  unfold parseTail
+  rw [parse_congr h]
+
+theorem new_legal (dev : Device) (hl : Legal dev.sched) :
+    ∃ cr d, CachingReader.new dev = (.ok cr, d) ∧ RInv cr dev.content := by
+  unfold CachingReader.new Device.seekEnd
+  obtain ⟨h1, ⟨h2, _⟩, _, _⟩ := Device.nextFault_legal dev hl
+  have hcont : dev.nextFault.2.content = dev.content := by
+    unfold Device.nextFault; cases dev.sched <;> rfl
+  generalize dev.nextFault = nf at h1 h2 hcont
+  obtain ⟨f, d⟩ := nf
+  simp only at h1 h2 hcont ⊢
+  cases f with
+  | fail => exact absurd rfl h2
+  | none => exact ⟨_, _, rfl, ⟨⟨by simp, by intro kv hkv; cases hkv⟩, by simpa using hcont, by simpa using h1⟩⟩
+  | short k => exact ⟨_, _, rfl, ⟨⟨by simp, by intro kv hkv; cases hkv⟩, by simpa using hcont, by simpa using h1⟩⟩
+  | interrupted => exact ⟨_, _, rfl, ⟨⟨by simp, by intro kv hkv; cases hkv⟩, by simpa using hcont, by simpa using h1⟩⟩
+  | eof => exact ⟨_, _, rfl, ⟨⟨by simp, by intro kv hkv; cases hkv⟩, by simpa using hcont, by simpa using h1⟩⟩
+
+theorem clearCache_inv (r : CachingReader) (c : Array UInt8) (h : RInv r c) : RInv r.clearCache c :=
+  ⟨⟨h.cache.1, by intro kv hkv; cases hkv⟩, h.content, h.legal⟩
+
+/-- one range read, both sides: the in-place window and the stream's copy hold the same bytes, or
+    both fail -/
+theorem read_equiv (r : CachingReader) (c : Array UInt8) (hinv : RInv r c) (a n : Nat) :
+    (∃ b r', (Slice.ofArray c).getBytes a (a + n) = .ok ⟨c, 0 + a, 0 + (a + n)⟩ ∧
+        r.readBytes a (a + n) = (.ok b, r') ∧ SameBytes b ⟨c, 0 + a, 0 + (a + n)⟩ ∧ RInv r' c) ∨
+    (∃ e e' r', (Slice.ofArray c).getBytes a (a + n) = .err e' ∧ r.readBytes a (a + n) = (.err e, r') ∧ RInv r' c) := by
+  obtain ⟨hfit, hnofit⟩ := readBytes_legal r c a (a + n) hinv (by omega)
+  rw [C03.getBytes_eq]
+  have hlen : (Slice.ofArray c).len = c.size := by simp [Slice.ofArray, Slice.len]
+  by_cases hle : a + n ≤ c.size
+  · obtain ⟨b, r', e1, e2, e3⟩ := hfit hle
+    refine Or.inl ⟨b, r', ?_, e1, e2, e3⟩
+    rw [hlen]; simp only [hle, if_true]; rfl
+  · obtain ⟨r', e1, e2⟩ := hnofit (by omega)
+    refine Or.inr ⟨_, .SliceReadError a (a + n), r', ?_, e1, e2⟩
+    rw [hlen]; simp only [hle, if_false]
+
+/-- **`ElfStream::open_stream` ≡ `ElfBytes::minimal_parse`** over any legal reader (short and
+    interrupted reads allowed, no failures) whose content is the slice's bytes: either both
+    succeed, with the same file header and with the stream's header vectors holding exactly the
+    entries of the slice parser's lazy tables, or both fail. -/
+theorem open_equiv (sp : Spec) (dev : Device) (hl : Legal dev.sched) (hc63 : dev.content.size < 2 ^ 63) :
+    (∃ f s d, minimalParse sp (Slice.ofArray dev.content) = .ok f ∧ openStream sp dev = (.ok s, d) ∧
+        s.ehdr = f.ehdr ∧ headersOf f.shdrs = .ok s.shdrs ∧ headersOf f.phdrs = .ok s.phdrs ∧
+        RInv s.reader dev.content) ∨
+    (∃ e e' d, minimalParse sp (Slice.ofArray dev.content) = .err e' ∧ openStream sp dev = (.err e, d)) := by
+  obtain ⟨cr, d0, hnew, hinv0⟩ := new_legal dev hl
+  unfold openStream minimalParse
+  rw [hnew]
+  simp only
+  generalize dev.content = c at *
+  -- ident bytes
+  have hId := read_equiv cr c hinv0 0 Abi.EI_NIDENT
+  simp only [Nat.zero_add] at hId
+  rcases hId with ⟨b, r1, g1, s1, sb1, hr1⟩ | ⟨e, e', r1, g1, s1, hr1⟩
+  · rw [g1, s1]
+    simp only [rbind, rlift, Out.bind]
+    rw [parseIdent_congr sb1]
+    cases hid : parseIdent sp ⟨c, 0, Abi.EI_NIDENT⟩ with
+    | panic =>
+      exfalso
+      exact C01.parse_ident_total sp _ hid
+    | err e => exact Or.inr ⟨e, e, _, rfl, rfl⟩
+    | ok ident =>
+      simp only
+      have hu : uadd Abi.EI_NIDENT (Gen.size_FileHeaderTail ident.2.1) =
+          .ok (Abi.EI_NIDENT + Gen.size_FileHeaderTail ident.2.1) := by
+        unfold uadd; cases ident.2.1 <;> rfl
+      rw [hu]; simp only
+      rcases read_equiv r1 c hr1 Abi.EI_NIDENT (Gen.size_FileHeaderTail ident.2.1) with
+        ⟨b2, r2, g2, s2, sb2, hr2⟩ | ⟨e, e', r2, g2, s2, hr2⟩
+      · rw [g2, s2]; simp only
+        rw [parseTail_congr sb2]
+        cases ht : parseTail ident ⟨c, 0 + Abi.EI_NIDENT, 0 + (Abi.EI_NIDENT + Gen.size_FileHeaderTail ident.2.1)⟩ with
+        | panic =>
+          exfalso
+          unfold parseTail at ht
+          have := EntryParser.parse_no_panic FileHeaderTail.ep total_FileHeaderTail ident.1 ident.2.1
+            ⟨c, 0 + Abi.EI_NIDENT, 0 + (Abi.EI_NIDENT + Gen.size_FileHeaderTail ident.2.1)⟩ 0
+          split at ht <;> simp_all
+        | err e => exact Or.inr ⟨e, e, _, rfl, rfl⟩
+        | ok ehdr =>
+          simp only
+          obtain ⟨r3, hr3, hsh⟩ := section_headers_equiv ehdr r2 c hr2 hc63
+          rcases hsh with ⟨tbl, f1, f2⟩ | ⟨e, e', f1, f2⟩
+          · rw [f1, f2]
+            obtain ⟨ls, hls⟩ := headersOf_ok tbl (by
+              intro x hx
+              rw [C05.find_shdrs_spec] at f1
+              have : x.ep = SectionHeader.ep := by
+                subst hx
+                split at f1
+                · cases f1
+                · cases hn : C05.shnumSpec ehdr (Slice.ofArray c) with
+                  | ok n =>
+                    simp only [hn, Out.bind] at f1
+                    split at f1
+                    · cases f1
+                    · split at f1
+                      · injection f1 with f1; injection f1 with f1; rw [← f1]; rfl
+                      · cases f1
+                      · cases f1
+                  | err e => simp [hn, Out.bind] at f1
+                  | panic => simp [hn, Out.bind] at f1
+              rw [this]; exact total_SectionHeader)
+            rw [hls]; simp only
+            obtain ⟨r4, hr4, hph⟩ := program_headers_equiv ehdr r3 c hr3 hc63
+            rcases hph with ⟨ptbl, p1, p2⟩ | ⟨e, e', p1, p2⟩
+            · rw [p1, p2]
+              obtain ⟨lp, hlp⟩ := headersOf_ok ptbl (by
+                intro x hx
+                rw [C05.find_phdrs_spec] at p1
+                have : x.ep = ProgramHeader.ep := by
+                  subst hx
+                  split at p1
+                  · cases p1
+                  · cases hn : C05.phnumSpec ehdr (Slice.ofArray c) with
+                    | ok n =>
+                      simp only [hn, Out.bind] at p1
+                      split at p1
+                      · cases p1
+                      · split at p1
+                        · injection p1 with p1; injection p1 with p1; rw [← p1]; rfl
+                        · cases p1
+                        · cases p1
+                    | err e => simp [hn, Out.bind] at p1
+                    | panic => simp [hn, Out.bind] at p1
+                rw [this]; exact total_ProgramHeader)
+              rw [hlp]; simp only
+              exact Or.inl ⟨_, _, _, rfl, rfl, rfl, hls, hlp, clearCache_inv r4 c hr4⟩
+            · rw [p1, p2]; simp only
+              exact Or.inr ⟨e, e', _, rfl, rfl⟩
+          · rw [f1, f2]; simp only
+            exact Or.inr ⟨e, e', _, rfl, rfl⟩
+      · rw [g2, s2]; simp only
+        exact Or.inr ⟨e, e', _, rfl, rfl⟩
+  · rw [g1, s1]
+    simp only [rbind, rlift, Out.bind]
+    exact Or.inr ⟨e, e', _, rfl, rfl⟩
 
 end Elf
